@@ -125,8 +125,9 @@ def _model_value(model, v):
 class Explorer:
     """Runs fn(ctx) once per feasible path."""
 
-    def __init__(self, branch_timeout_ms=3000, check_timeout_ms=20000, max_paths=5000, max_seconds=600):
+    def __init__(self, branch_timeout_ms=3000, check_timeout_ms=20000, max_paths=5000, max_seconds=600, cross=0):
         self.max_seconds = max_seconds
+        self.cross = cross   # number of solver-decided obligations to re-decide with other solvers
         self.branch_timeout_ms = branch_timeout_ms
         self.check_timeout_ms = check_timeout_ms
         self.max_paths = max_paths
@@ -151,7 +152,7 @@ class Explorer:
         self.trace = []
 
     # ---- feasibility -----------------------------------------------------
-    def _solve(self, conds, timeout_ms):
+    def _build(self, conds, timeout_ms):
         s = z3.Solver()
         s.set("timeout", timeout_ms)
         atoms = set()
@@ -161,6 +162,10 @@ class Explorer:
             s.add(k)
         for c in conds:
             s.add(self.z.cond(c))
+        return s, atoms
+
+    def _solve(self, conds, timeout_ms):
+        s, atoms = self._build(conds, timeout_ms)
         t0 = time.time()
         r = s.check()
         self.stats["solver_s"] += time.time() - t0
@@ -314,6 +319,33 @@ class Explorer:
         if not self.feasible(self.pc):
             raise PathInfeasible()
 
+    def _cross_solver(self, solver, verdict, label):
+        """re-decide one obligation with /usr/bin/z3 (4.8.12) and the cvc5 binary on the
+        SMT-LIB2 dump; any disagreement is an engine error"""
+        import os
+        import subprocess
+        import tempfile
+        smt = "(set-logic QF_NRA)\n" + solver.to_smt2().replace("(set-info :status unknown)", "")
+        fd, path = tempfile.mkstemp(suffix=".smt2", dir=os.environ.get("TMPDIR", "/tmp"))
+        with os.fdopen(fd, "w") as f:
+            f.write(smt)
+        try:
+            for name, cmd in (("z3-4.8", ["/usr/bin/z3", "-T:10", path]), ("cvc5", ["cvc5", "--tlimit=10000", path])):
+                try:
+                    p = subprocess.run(cmd, capture_output=True, text=True, timeout=15)
+                    out = (p.stdout + p.stderr).strip().splitlines()
+                    ans = out[0].strip() if out else "unknown"
+                    if any("(error" in ln for ln in out):
+                        ans = "error"
+                except Exception:
+                    ans = "timeout"
+                k = f"cross_{name}_" + ("agree" if ans == verdict else ("disagree" if ans in ("sat", "unsat") else "no-answer"))
+                self.stats[k] = self.stats.get(k, 0) + 1
+                if ans in ("sat", "unsat") and ans != verdict:
+                    self.errors.append({"error": f"cross-solver disagreement on {label}: z3 5.x says {verdict}, {name} says {ans}", "choices": self._choices()})
+        finally:
+            os.unlink(path)
+
     # ---- raw (un-normalised) cross-check of the normal form ----------------------
     def raw_to_z3(self, node, memo, extra):
         """(re, im) z3 expressions of an un-normalised expression tree; leaves are
@@ -406,10 +438,16 @@ class Explorer:
             self.stats["discharged_linear_abstraction"] = self.stats.get("discharged_linear_abstraction", 0) + 1
             if len(self.samples) < 3:
                 self.samples.append({"label": label, "choices": self._choices(), "negated_claim": repr(neg)[:300], "verdict": "unsat (monomial-linearised relaxation, QF_LRA)"})
+            if self.cross > 0:
+                self.cross -= 1
+                self._cross_solver(self._build(self.pc + [neg], 1000)[0], "unsat", label)
             return True
         r, s, atoms = self._solve(self.pc + [neg], self.check_timeout_ms)
         if len(self.samples) < 3:
             self.samples.append({"label": label, "choices": self._choices(), "negated_claim": repr(neg)[:300], "verdict": r})
+        if self.cross > 0 and r in ("sat", "unsat"):
+            self.cross -= 1
+            self._cross_solver(s, r, label)
         if r == "unsat":
             self.stats["discharged_solver"] += 1
             return True
